@@ -1057,7 +1057,7 @@ def split_signature(sig: str):
     return sig[:arrow].rstrip(), sig[arrow + 2:end].strip(), wh
 
 
-def generate(unit, template_path, canary=False, extra_fns=()):
+def generate(unit, template_path, canary=False, extra_fns=(), drop_hints=()):
     srcs = {}
 
     def get_src(rel):   # per-call cache: generate() may run concurrently for several units
@@ -1249,6 +1249,17 @@ def generate(unit, template_path, canary=False, extra_fns=()):
                     sig = arm_sig
                     body = src.text[bo:bc + 1]
             where = f"{spec['file']}:{line_of(src.text, s0)}::{spec['name']}"
+            annotated = bool(spec["inserts"] or spec.get("closures") or any(c["kind"] != "abstract" for c in spec["loops"])
+                             or any(any(t in r[0] for t in ("R10", "R11")) for r in spec.get("rewrites_re", [])))
+            if (spec["as"] or spec["name"]) in drop_hints:
+                # the proof annotations of this function (R10/R11: inserted hints, loop invariants, closure contracts) do not
+                # COMPILE against the current body (they name a local that is gone): they are dropped, the function is verified
+                # without them and every failing obligation of it reads `hint-lost` (undecided), never VIOLATION
+                spec["inserts"] = []
+                spec["closures"] = []
+                spec["loops"] = [c for c in spec["loops"] if c["kind"] == "abstract"]
+                spec["rewrites_re"] = [r for r in spec.get("rewrites_re", []) if not any(t in r[0] for t in ("R10", "R11"))]
+                g.rewrites.append({"rule": "R10", "where": where, "before": "every proof annotation of the function", "after": "(dropped: the annotations do not compile against the current body)", "missed": True})
             body_hash = hashlib.sha256((sig + body).encode()).hexdigest()[:16]
             if spec.get("external_body"):
                 body = "{ unimplemented!() }"
@@ -1424,7 +1435,19 @@ def generate(unit, template_path, canary=False, extra_fns=()):
                                     break
                             elif ch == ";" and depth == 0:
                                 break
+                            elif ch == "," and depth == 0:
+                                k2 = len(bm)      # a match-arm expression (`P => e,`), not a statement: no place for a hint
+                                break
                             k2 += 1
+                        if k2 < len(bm) and bm[k2] == "}":
+                            # the statement is the (unit-valued) tail expression of its block, e.g. `else { expr = E }`: it becomes a
+                            # statement (`;`) followed by the proof text - a value-producing tail would no longer compile (=> undecided)
+                            k3 = k2 - 1
+                            while k3 > st and bm[k3] in " \n\t":
+                                k3 -= 1
+                            body = body[:k3 + 1] + "; " + text + " " + body[k3 + 1:]
+                            g.rewrites.append({"rule": "R10", "where": where, "before": anchor, "after": f"{pos}: {text}"})
+                            continue
                         if k2 >= len(bm) or bm[k2] != ";":
                             g.rewrites.append({"rule": "R10", "where": where, "before": anchor, "after": f"{pos}: {text}", "missed": True})
                             continue
@@ -1570,9 +1593,15 @@ def generate(unit, template_path, canary=False, extra_fns=()):
                             k += len(itn[0]) + 2
                     inv = [c["text"] for c in byloop[n] if c["kind"] == "invariant"]
                     dec = [c["text"] for c in byloop[n] if c["kind"] == "decreases"]
+                    ieb = [c["text"] for c in byloop[n] if c["kind"] == "invariant_except_break"]
+                    lens = [c["text"] for c in byloop[n] if c["kind"] == "ensures"]
                     ins = ""
+                    if ieb:
+                        ins += " invariant_except_break " + ", ".join(ieb) + ","
                     if inv:
                         ins += " invariant " + ", ".join(inv) + ","
+                    if lens:
+                        ins += " ensures " + ", ".join(lens) + ","
                     if dec:
                         ins += " decreases " + ", ".join(dec) + ","
                     body = body[:k] + ins + " " + body[k:]
@@ -1615,7 +1644,7 @@ def generate(unit, template_path, canary=False, extra_fns=()):
                 "props": spec["props"], "gen_start": fstart, "gen_end": len(g.lines),
                 "clauses": clause_ids, "hash": body_hash,
                 "n_asserts": sum(1 for r in g.rewrites if r["rule"] == "R4" and r["where"] == where),
-                "opaque": bool(spec.get("external_body")),
+                "opaque": bool(spec.get("external_body")), "annotated": annotated,
             })
     return g
 
